@@ -261,11 +261,19 @@ def main():
     for name, why in plan.anchor_errors:
         print("UNDECIDED obligation=%s reason=anchor-lost %s" % (name, why))
     known = load_known()
-    known_obs = {k["obligation"]: k for k in known.get("findings", []) if k["property"] == prop}
+    known_list = [k for k in known.get("findings", []) if k["property"] == prop]
+
+    def known_for(name):
+        """a finding names one obligation, or (one defect site instantiated by macro for several kinds) a regex
+        over the obligation names generated from that one site"""
+        for k in known_list:
+            if k.get("obligation") == name or (k.get("obligation_regex") and re.fullmatch(k["obligation_regex"], name)):
+                return k
+        return None
     violations, known_hit = [], []
     for o in plan.obs:
         if o.status == "violated":
-            if o.name in known_obs:
+            if known_for(o.name):
                 known_hit.append(o)
             else:
                 violations.append(o)
@@ -310,7 +318,7 @@ def main():
         print("  obligation=%s : %s" % (o.name, o.detail[:300]))
         rc = 1
     for o in known_hit:
-        print("KNOWN-FINDING: property=%s %s [%s]" % (prop, known_obs[o.name]["what"], o.name))
+        print("KNOWN-FINDING: property=%s %s [%s]" % (prop, known_for(o.name)["what"], o.name))
     und = [o for o in plan.obs if o.status == "undecided"]
     for o in und:
         print("UNDECIDED obligation=%s %s" % (o.name, o.detail[:200]))
